@@ -23,6 +23,7 @@ type replayMeta struct {
 	Test       string   `json:"test"`
 	What       string   `json:"what"`
 	dir        string
+	model      string
 }
 
 func findReplayTemplate(obligation string) *replayMeta {
@@ -67,6 +68,59 @@ type replayOutcome struct {
 	Overlay    string
 }
 
+// modelParams extracts the solver's values for the function's parameters from a model, as {param: smt-value}.
+func modelParams(model string) map[string]string {
+	out := map[string]string{}
+	lines := strings.Split(model, "\n")
+	for i, ln := range lines {
+		t := strings.TrimSpace(ln)
+		if !strings.HasPrefix(t, "(define-fun |") {
+			continue
+		}
+		name := t[len("(define-fun |"):]
+		j := strings.Index(name, "|")
+		if j < 0 {
+			continue
+		}
+		name = name[:j]
+		if k := strings.Index(name, "!"); k >= 0 {
+			name = name[:k]
+		}
+		if !strings.Contains(name, ".") {
+			continue
+		}
+		val := ""
+		if idx := strings.Index(t, ") "); idx >= 0 && strings.Count(t, "(") == strings.Count(t, ")") {
+			// single-line definition
+			rest := t[strings.Index(t, "() ")+3:]
+			if sp := strings.Index(rest, " "); sp >= 0 {
+				val = strings.TrimSuffix(strings.TrimSpace(rest[sp+1:]), ")")
+				if strings.HasPrefix(rest, "(") { // parenthesised sort
+					d := 0
+					for q := 0; q < len(rest); q++ {
+						if rest[q] == '(' {
+							d++
+						}
+						if rest[q] == ')' {
+							d--
+							if d == 0 {
+								val = strings.TrimSuffix(strings.TrimSpace(rest[q+1:]), ")")
+								break
+							}
+						}
+					}
+				}
+			}
+		} else if i+1 < len(lines) {
+			val = strings.TrimSuffix(strings.TrimSpace(lines[i+1]), ")")
+		}
+		if val != "" && len(val) < 200 {
+			out[name] = val
+		}
+	}
+	return out
+}
+
 func runReplay(rm *replayMeta, workDir string) replayOutcome {
 	m, ok := modules[rm.Module]
 	if !ok {
@@ -96,6 +150,10 @@ func runReplay(rm *replayMeta, workDir string) replayOutcome {
 	env = append(env, "GOPROXY=off", "GOSUMDB=off", "GOTOOLCHAIN=local")
 	if m.modMod {
 		env = append(env, "GOFLAGS=-mod=mod")
+	}
+	if rm.model != "" {
+		mp, _ := json.Marshal(modelParams(rm.model))
+		env = append(env, "GOCV_MODEL_JSON="+string(mp))
 	}
 	cmd.Env = env
 	done := make(chan struct{})
